@@ -50,6 +50,8 @@ type HSpec struct {
 	NumPrimeX string      `json:"num_prime_x,omitempty"`
 	PTNumX    string      `json:"pt_num_x,omitempty"`
 	Shares    []ShareSpec `json:"shares,omitempty"` // work shares / uncles in the body (before the KawPow fork)
+	// location of the header (and of its coinbase / work shares): nil = [0,0]; LocEmpty wins
+	Loc []int `json:"loc,omitempty"`
 
 	wsHint string // generator only: WorkShareLogEntropy of the block as observed when the pair was fabricated
 }
@@ -73,6 +75,7 @@ func (s HSpec) ptNumBig() *big.Int      { return addX(s.PTNum, s.PTNumX) }
 // shareHeaders fabricates the work-share headers of s (deterministic: the same spec gives the same hashes).
 func shareHeaders(s HSpec) []*types.WorkObjectHeader {
 	us := make([]*types.WorkObjectHeader, len(s.Shares))
+	zoneLoc := locOf(s.Loc)
 	for i, sh := range s.Shares {
 		uw := types.EmptyWorkObject(common.ZONE_CTX).WorkObjectHeader()
 		uw.SetLocation(zoneLoc)
@@ -107,11 +110,22 @@ func defaultH() HSpec {
 
 var zoneLoc = common.Location{0, 0}
 
+// locOf: a zone location from its spec (nil = [0,0])
+func locOf(l []int) common.Location {
+	if len(l) != 2 {
+		return common.Location{0, 0}
+	}
+	return common.Location{byte(l[0]), byte(l[1])}
+}
+
+func isLoc00(l []int) bool { return len(l) != 2 || (l[0] == 0 && l[1] == 0) }
+
 // build fabricates the WorkObject described by s (zone view object; the prime/region numbers live in the Header()).
 func build(s HSpec) *types.WorkObject {
 	wo := types.EmptyWorkObject(common.ZONE_CTX)
 	wh := wo.WorkObjectHeader()
 	h := wo.Header()
+	zoneLoc := locOf(s.Loc)
 	loc := zoneLoc
 	if s.LocEmpty {
 		loc = common.Location{}
@@ -214,23 +228,37 @@ type chain struct {
 	dl     *big.Int
 	mind   *big.Int
 	gasCap uint64
+	cfg    *params.ChainConfig
+	pc     params.PowConfig
 }
 
 func newChain(ctx int, dl, mind *big.Int, gasCeil uint64) *chain {
+	return newChainAt(ctx, nil, dl, mind, gasCeil)
+}
+
+// newChainAt: zoneLoc = the node location of a zone node (nil = [0,0]); region / prime nodes sit at [0] / []
+func newChainAt(ctx int, zone []int, dl, mind *big.Int, gasCeil uint64) *chain {
 	logger := hlib.QuietLogs()
-	loc := common.Location{0, 0}
+	loc := locOf(zone)
 	switch ctx {
 	case common.PRIME_CTX:
 		loc = common.Location{}
 	case common.REGION_CTX:
-		loc = common.Location{0}
+		loc = common.Location{loc[0]} // the region of the zone location
 	}
 	ch := &chain{ctx: ctx, db: rawdb.NewMemoryDatabase(logger), eng: &stubEngine{pow: map[common.Hash]common.Hash{}},
 		prime: map[common.Hash]*types.WorkObject{}, dl: dl, mind: mind, gasCap: gasCeil}
 	cfg := &params.ChainConfig{ChainID: big.NewInt(1337), Location: loc}
 	pc := params.PowConfig{PowMode: params.ModeNormal, DurationLimit: dl, MinDifficulty: mind, GasCeil: gasCeil, NodeLocation: loc, WorkShareThreshold: params.WorkSharesThresholdDiff}
+	ch.cfg, ch.pc = cfg, pc
 	ch.hc = core.VerifC09NewHeaderChain(ch.db, cfg, pc, []consensus.Engine{ch.eng, ch.eng}, func(h common.Hash) *types.WorkObject { return ch.prime[h] }, logger)
 	return ch
+}
+
+// restart replaces the header chain object by a new one over the SAME database (what a node restart does: every memo is
+// gone, the stored blocks, candidates, termini and genesis hashes stay)
+func (ch *chain) restart() {
+	ch.hc = core.VerifC09NewHeaderChain(ch.db, ch.cfg, ch.pc, []consensus.Engine{ch.eng, ch.eng}, func(h common.Hash) *types.WorkObject { return ch.prime[h] }, hlib.QuietLogs())
 }
 
 func (ch *chain) setPow(wo *types.WorkObject, pow *big.Int) {
@@ -353,9 +381,16 @@ func defaultChain(ctx int) *chain {
 	return newChain(ctx, big.NewInt(5), big.NewInt(1000), 50000000)
 }
 
+// chainFor: the functions of these cases do not depend on WHICH zone / region the node serves; the node location is
+// spread over the slices by the case id (replayable) so that a dependence on it shows up as a mismatch with the model
+func chainFor(ctx int, id uint64) *chain {
+	ch := newChainAt(ctx, nodeLocs[id%uint64(len(nodeLocs))], big.NewInt(5), big.NewInt(1000), 50000000)
+	return ch
+}
+
 func (c *ctxT) runOrder(cs Case) string {
 	ctx := int(bi(cs.Z[0]).Int64())
-	ch := defaultChain(ctx)
+	ch := chainFor(ctx, cs.ID)
 	s := cs.H[0]
 	wo := ch.add(s, false)
 	r1 := calcOrder(ch, wo)
@@ -363,7 +398,7 @@ func (c *ctxT) runOrder(cs Case) string {
 	r2 := calcOrder(ch, wo)
 	ch.hc.VerifC09PurgeCaches()
 	r3 := calcOrder(ch, wo)
-	ch2 := defaultChain(ctx) // "restart": a fresh chain object
+	ch2 := chainFor(ctx, cs.ID+1) // "restart": a fresh chain object (of the neighbouring slice: the order of a block is the same everywhere)
 	wo2 := ch2.add(s, false)
 	r4 := calcOrder(ch2, wo2)
 	if !r1.eq(r2) || !r1.eq(r3) || !r1.eq(r4) {
@@ -416,7 +451,7 @@ func (c *ctxT) runOrder(cs Case) string {
 
 func (c *ctxT) runTotals(cs Case) string {
 	ctx := int(bi(cs.Z[0]).Int64())
-	ch := defaultChain(ctx)
+	ch := chainFor(ctx, cs.ID)
 	s := cs.H[0]
 	wo := ch.add(s, false)
 	var t, d, ud *big.Int
@@ -469,7 +504,7 @@ func (c *ctxT) runTotals(cs Case) string {
 
 func (c *ctxT) runWsPost(cs Case) string {
 	n := int(bi(cs.Z[0]).Int64())
-	ch := defaultChain(common.ZONE_CTX)
+	ch := chainFor(common.ZONE_CTX, cs.ID)
 	s := defaultH()
 	s.Num, s.PTNum, s.NUncles = 5, params.KawPowForkBlock+1, n
 	wo := ch.add(s, false)
@@ -495,7 +530,7 @@ func (c *ctxT) runDiff(cs Case) string {
 	// Z: dl mind pd pt gpKind(0 none,1 genesis,2 time) gpt
 	dl, mind, pd, pt := bi(cs.Z[0]), bi(cs.Z[1]), bi(cs.Z[2]), bi(cs.Z[3]).Uint64()
 	gpKind, gpt := bi(cs.Z[4]).Int64(), bi(cs.Z[5]).Uint64()
-	ch := newChain(common.ZONE_CTX, dl, mind, 50000000)
+	ch := newChainAt(common.ZONE_CTX, nodeLocs[cs.ID%uint64(len(nodeLocs))], dl, mind, 50000000)
 	gs := defaultH()
 	gs.Num, gs.Time, gs.Nonce = 7, gpt, 99
 	gs.Genesis = gpKind == 1
@@ -558,7 +593,7 @@ func (c *ctxT) runDiff(cs Case) string {
 func (c *ctxT) runDiffGen(cs Case) string {
 	pd, pep, exp := bi(cs.Z[0]), bi(cs.Z[1]), uint8(bi(cs.Z[2]).Uint64())
 	first, second := cs.B[0], cs.B[1]
-	ch := defaultChain(common.ZONE_CTX)
+	ch := chainFor(common.ZONE_CTX, cs.ID)
 	gs := defaultH()
 	gs.Genesis, gs.Diff, gs.LocEmpty = true, pd.String(), first
 	gs.PE[0] = pep.String()
@@ -584,7 +619,7 @@ func (c *ctxT) runDiffGen(cs Case) string {
 func (c *ctxT) runBaseFee(cs Case) string {
 	er, diff, number := bi(cs.Z[0]), bi(cs.Z[1]), bi(cs.Z[2]).Uint64()
 	isGen, parGen := cs.B[0], cs.B[1]
-	ch := defaultChain(common.ZONE_CTX)
+	ch := chainFor(common.ZONE_CTX, cs.ID)
 	pts := defaultH()
 	pts.Num, pts.Nonce, pts.ExRate = 3, 77, er.String()
 	pt := ch.add(pts, true)
@@ -615,7 +650,7 @@ type OpSpec struct {
 }
 
 func (c *ctxT) runCache(cs Case) string {
-	ch := defaultChain(common.ZONE_CTX)
+	ch := chainFor(common.ZONE_CTX, cs.ID)
 	wos := make([]*types.WorkObject, len(cs.H))
 	for i, s := range cs.H {
 		wos[i] = ch.add(s, false)
